@@ -245,6 +245,9 @@ def run(ctx, rep) -> None:
     from .common import gradients_are_inputs
 
     rep.attempt("gradients_are_inputs", gradients_are_inputs, ctx, rep, "C01.1")
+    from .c09 import bias_correction_every_step
+
+    rep.attempt("bias_correction_every_step", bias_correction_every_step, ctx, rep, "C01.6")
     rep.attempt("_effect_order", _effect_order, ctx, rep)
     step = repo.method(DS, "step")
     rep.attempt("schedule_expr_check", schedule_expr_check, ctx, rep, "C01.3", step, "perform_amortized_computation", lambda s, a, f, env: s == a or (s > a and s % f == 0), "step == start or (step > start and step % freq == 0)")
